@@ -345,15 +345,20 @@ def read_trace_cases(trace_path, wanted):
 # findings, replay files, evidence
 
 def load_findings():
+    """known_findings.json is the single committed list (bin/mkfindings consolidates the builders' fragments
+    known/findings-<group>.json into it); a fragment entry that is not yet in it is still honoured."""
     out = []
     p = os.path.join(ROOT, "known_findings.json")
     if os.path.exists(p):
         out += json.load(open(p))["findings"]
+    have = {(f["property"], f["id"]) for f in out}
     kd = os.path.join(ROOT, "known")
     if os.path.isdir(kd):
         for fn in sorted(os.listdir(kd)):
             if fn.startswith("findings-") and fn.endswith(".json"):
-                out += json.load(open(os.path.join(kd, fn)))["findings"]
+                for f in json.load(open(os.path.join(kd, fn)))["findings"]:
+                    if (f["property"], f["id"]) not in have:
+                        out.append(f)
     return out
 
 
